@@ -40,7 +40,7 @@ theorem C15_gen_ctor : Src.collect Src.ctorMicro Signal.ctor = some (ctorSteps L
 
 open MpVerif.Gen in
 /-- destructor: the stores of the body in source order, followed by the destruction of the members -/
-theorem C15_gen_dtor : (Src.collect Src.dtorMicro Signal.dtor).map (· ++ [Micro.dFree]) = some dtorSteps := by decide
+theorem C15_gen_dtor : (Src.collect Src.dtorMicro Signal.dtor).map (· ++ [Micro.dFree]) = some (dtorSteps Layout.current) := by decide
 
 open MpVerif.Gen in
 /-- `SetHandler(h, d)`: the three stores in source order, for every callback and data -/
@@ -479,6 +479,37 @@ theorem C15_order_third_exits (L : Layout) (hL : L.ctorStopFirst = true) (md : M
   have := stop_le_two md post (run md init pre).1 (stop_le_two md pre init (by decide))
   omega
 
+/-- **Third interrupt terminates, FULL strength, for a destructor that does not reset the count**
+    (`Layout.dtorKeepsStop`, repo_patches/C15-fix-dtor-keep-count.diff).  After any well-formed history, three signals
+    delivered anywhere in any well-formed continuation — registrations, solving, reporting, *teardown and after it* —
+    terminate the process, as long as no new handler object's constructor resets the count in between
+    (`stop_ = 0` is the only remaining store that lowers it).  Signals that find no handler installed terminate the
+    process by the default action, so no installation hypothesis is needed. -/
+theorem C15_order_third_exits_full (L : Layout) (hD : L.dtorKeepsStop = true) (md : Mode) (pre post : List Ev) (pc pc' : PC)
+    (_hpc : pcRun L .idle pre = some pc) (hpost : pcRun L pc post = some pc')
+    (hno : ∀ e ∈ post, e ≠ .step .cStop0) (h3 : 3 ≤ sigCount post) :
+    (run md init (pre ++ post)).1.halted ≠ none := by
+  intro hn
+  have hk := keeps_no_dStop1 L hD post pc pc' hpost
+  have hneu : ∀ e ∈ post, StopNeutral e = true := by
+    intro e he
+    have a := hno e he
+    have b := hk e he
+    cases e with
+    | sig g => rfl
+    | step m => cases m <;> simp_all [StopNeutral]
+  rw [run_append] at hn
+  have e1 := stop_run md post _ hneu hn
+  have := stop_le_two md post (run md init pre).1 (stop_le_two md pre init (by decide))
+  omega
+
+/-- the failing history of the open finding, on the layout with the destructor repair: two SIGINTs during solving,
+    one after the destructor — the third now terminates the process -/
+example :
+    let evs := schedule (expandProg Layout.repaired [.ctor, .work, .dtor, .work]) 0 [(8, .int), (8, .int), (12, .int)]
+    wfProg Layout.repaired [.ctor, .work, .dtor, .work] = true ∧ sigCount evs = 3 ∧
+    (run .bsd init evs).1.halted = some .exit1 := by decide
+
 /-- **The first two interrupts never `_exit`, repaired constructor**: counted from the constructor's `stop_ = 0`,
     which now precedes the `signal()` calls. -/
 theorem C15_order_no_early_exit (L : Layout) (hL : L.ctorStopFirst = true) (md : Mode) (pre post : List Ev) (pc' : PC)
@@ -639,11 +670,11 @@ example :
 /-- `C15_after_teardown` / `C15_break_text_safe` after a history with a registration and interrupts: nothing is
     called, nothing is written -/
 example :
-    let pre := exPre ++ exPost ++ (dtorSteps.map Ev.step)
+    let pre := exPre ++ exPost ++ ((dtorSteps Layout.current).map Ev.step)
     pcRun Layout.current .idle pre = some .idle ∧ (run .bsd init pre).1.halted = none ∧
     (deliver .bsd (run .bsd init pre).1 .int).2 = [.brk 0 true, .rearm .int] := by decide
 
-example : Obs.cb 1 2 ∉ (deliver .bsd (run .bsd init (exPre ++ exPost ++ (dtorSteps.take 3).map Ev.step)).1 .int).2 :=
+example : Obs.cb 1 2 ∉ (deliver .bsd (run .bsd init (exPre ++ exPost ++ ((dtorSteps Layout.current).take 3).map Ev.step)).1 .int).2 :=
   C15_after_teardown Layout.current .bsd _ .int .dH (by decide) (by decide) (by decide) 1 2
 
 /-- `C15_gen_handleSigInt` in a state where everything happens: sysv semantics, failing stdout, a registered
